@@ -42,6 +42,9 @@ def oracle(tier, rng, seeds):
     fl4, st4 = effects.warmup_history_search(rng, 120 if tier == 'quick' else 600, 60 if tier == 'quick' else 400)
     fails = [Failure(f['what'], {'history': f['history'], 'mutate_first': f.get('mutate_first', False)}) for f in fl + fl2 + fl4]
     st.update(st2); st.update(st4)
+    fl5, st5 = effects.headroom_sweep(rng)
+    fails += [Failure(f['what'], {'history': f['history'], 'headroom': f['headroom']}) for f in fl5]
+    st.update(st5)
     import hashseed
     fl3, st3 = hashseed.check(rng)
     fails += [Failure(f['what'], {'hashseed_call': f['call'], 'hashseeds': f['seeds']}) for f in fl3]
@@ -56,6 +59,8 @@ def replay(f):
     h = f.get('data', {}).get('history')
     if h and f.get('data', {}).get('mutate_first'):
         return effects.run_mutate_first(h[0][0], tuple(h[0][1]))
+    if h and f.get('data', {}).get('headroom'):
+        return effects.run_headroom(h[0][0], tuple(tuple(a) if isinstance(a, list) and h[0][0] == 'lonlat_to_cell' else a for a in h[0][1]))
     if h:
         return effects.run_history([(c[0], tuple(c[1])) for c in h])
     fl, _ = effects.history_search(random.Random(0), 3, 40)
